@@ -1,5 +1,5 @@
 """Shared slot fillers: names of the repository's functions / types the rules are anchored on."""
-from ..ir import callee, short, walk, ctor_name
+from ..ir import pat_variants, callee, short, walk, ctor_name
 
 WB = 'worterbuch'
 COMMON = 'worterbuch_common'
@@ -36,16 +36,45 @@ def is_spawn(name):
                                                                           'Subsystem' in name or 'subsys' in name.lower())
 
 
+class _SM(tuple):
+    """(variant, payload) of the message sent; `.alts` lists every alternative [(variant, payload, arm-variants, scrutinee)] when the
+    message value is chosen by a `match` / `if` (`let msg = match r { Ok(_) => Ack(..), Err(_) => Err(..) }; tx.send(msg)`)"""
+    alts = ()
+
+
+def _message_alternatives(arg, binds, depth=0):
+    out = []
+    if not isinstance(arg, dict) or depth > 4:
+        return out
+    arg = binds.deref_local(arg) if binds else arg
+    k = arg.get('k')
+    c = ctor_name(arg)
+    if c and 'ServerMessage::' in c:
+        payload = arg['args'][0] if arg.get('k') == 'call' and arg['args'] else None
+        return [(short(c), payload, None, None)]
+    if k == 'match':
+        for arm in arg['arms']:
+            vs = frozenset(short(v) for v in pat_variants(arm['pat']))
+            for (v, p, _, _) in _message_alternatives(arm['body'], binds, depth + 1):
+                out.append((v, p, vs, arg['scrut']))
+    elif k == 'if' and 'else' in arg:
+        for br in (arg['then'], arg['else']):
+            out += _message_alternatives(br, binds, depth + 1)
+    elif k == 'block' and 'tail' in arg:
+        out += _message_alternatives(arg['tail'], binds, depth + 1)
+    return out
+
+
 def server_message_sent(call, binds):
     """if `call` is `<mpsc sender>.send(ServerMessage::X(..))` return (X, payload expr) else None"""
     if call.get('k') != 'call' or not is_mpsc_send(callee(call)) or len(call['args']) < 2:
         return None
-    arg = binds.deref_local(call['args'][1]) if binds else call['args'][1]
-    c = ctor_name(arg) if isinstance(arg, dict) else None
-    if c and 'ServerMessage::' in c:
-        payload = arg['args'][0] if arg.get('k') == 'call' and arg['args'] else None
-        return short(c), payload
-    return None
+    alts = _message_alternatives(call['args'][1], binds)
+    if not alts:
+        return None
+    r = _SM((alts[0][0], alts[0][1]))
+    r.alts = tuple(alts)
+    return r
 
 
 def loc(f, n=None):
